@@ -11,8 +11,9 @@ MANIFEST = {
                   'definition sees the address of the corresponding sub-object of the very object passed (with the offset adjustment of a '
                   'second base), that references bind to the caller\'s own objects, that scalars and the return value pass through unchanged '
                   'and that tracked rvalues are never copied.',
-    'level_note': 'Kinds T&, T&&, T*, virtual_ptr<T>; inheritance: same class, single, second base at non-zero offset, two levels. Not '
-                  'encodable and outside the claim: virtual bases (need the C++ runtime\'s __dynamic_cast and type-info tables), shared_ptr / '
+    'level_note': 'Kinds T&, T&&, T*, virtual_ptr<T>; inheritance: same class, single, second base at non-zero offset, two levels. Virtual '
+                  'bases are covered with a policy-supplied dynamic_cast_ref (std_rtti\'s dynamic_cast itself needs the C++ runtime and is '
+                  'outside the claim). Outside the claim: shared_ptr / '
                   'virtual_shared_ptr kinds (std::shared_ptr control blocks). A move-only object can only be passed by rvalue reference (a by-value '
                   'move-only parameter does not compile: the thunk copies by-value arguments), which is the form checked.',
 }
@@ -35,4 +36,8 @@ def queries(tier):
                             {1: 'T&', 2: 'T&&', 3: 'T*', 4: 'virtual_ptr<T>'}[k], {1: 'same', 2: 'single', 3: 'second base (offset)', 4: 'two levels'}[i], p,
                             {1: 'int by value', 2: 'lvalue refs', 3: 'tracked rvalue ref', 4: 'move-only rvalue ref'}[c]),
                         symbolic='which caller object, scalar argument values, return value', bounds={'program': [k, i, p, c]}, diff_random=3))
+    for k in (1, 3, 4):
+        qs.append(Query('args_virtual_base_kind%d' % k, 'c11_vbase.cpp', {'KIND': k}, unwind=12, models=True, checks='none', timeout=600,
+                        desc='method class is a virtual base of the definition class (policy downcast), objects of two dynamic classes, kind %d' % k,
+                        symbolic='order of the calls, scalar arguments', bounds={'program': 'virtual base, kind %d' % k}, diff_random=3))
     return qs
